@@ -482,13 +482,27 @@ def asserted_parameters(rep, idx, rule="C19.21"):
                                         isinstance(st.targets[0].value, ast.Name) and st.targets[0].value.id == "self" and \
                                         st.targets[0].attr == arg.attr and isinstance(st.value, ast.Name) and st.value.id in init.params:
                                     q = st.value.id
+                                # self._x = self._check(q): handed through a helper of the class
+                                if isinstance(st, ast.Assign) and len(st.targets) == 1 and isinstance(st.targets[0], ast.Attribute) and \
+                                        isinstance(st.targets[0].value, ast.Name) and st.targets[0].value.id == "self" and \
+                                        st.targets[0].attr == arg.attr and isinstance(st.value, ast.Call) and len(st.value.args) == 1 and \
+                                        isinstance(st.value.args[0], ast.Name) and st.value.args[0].id in init.params and \
+                                        isinstance(st.value.func, ast.Attribute) and isinstance(st.value.func.value, ast.Name) and \
+                                        st.value.func.value.id in ("self", "cls"):
+                                    q = st.value.args[0].id
                         elif isinstance(arg, ast.Name) and f.name == "__init__" and arg.id in f.params:
                             q, init = arg.id, f
                         if q is None or f.cls.name.startswith("_"):
                             continue
                         n += 1
+                        # names that stand for a verdict on q: a local flag bound to an expression that mentions q
+                        about_q = {q}
+                        for x in ast.walk(init.node):
+                            if isinstance(x, ast.Assign) and len(x.targets) == 1 and isinstance(x.targets[0], ast.Name) and \
+                                    any(isinstance(y, ast.Name) and y.id == q for y in ast.walk(x.value)):
+                                about_q.add(x.targets[0].id)
                         refusals = [x for x in ast.walk(init.node) if isinstance(x, ast.If) and any(isinstance(y, ast.Raise) for y in ast.walk(x)) and
-                                    any(isinstance(y, ast.Name) and y.id == q for y in ast.walk(x.test))]
+                                    any(isinstance(y, ast.Name) and y.id in about_q for y in ast.walk(x.test))]
                         # ... or hands it to a helper of the class / module that raises (self._check_overlaps(shadow_overlaps))
                         for x in ast.walk(init.node):
                             if isinstance(x, ast.Call) and any(isinstance(y, ast.Name) and y.id == q for y in list(x.args) + [k.value for k in x.keywords]):
@@ -1031,6 +1045,27 @@ def partial_reducers(rep, idx):
 
 
 # ---- C19.1 ----------------------------------------------------------------------------------------------
+def _rebuilt_first(f, attr):
+    """elaborate() binds `self.<attr>` to a freshly constructed object (a call of a class) unconditionally, at the top level of its
+    body, before any statement reads the attribute: what an earlier elaboration left there is never seen."""
+    for st in f.node.body:
+        reads = [n for n in ast.walk(st) if isinstance(n, ast.Attribute) and n.attr == attr and isinstance(n.value, ast.Name) and
+                 n.value.id == "self" and isinstance(n.ctx, ast.Load)]
+        if isinstance(st, ast.Assign) and len(st.targets) == 1 and isinstance(st.targets[0], ast.Attribute) and \
+                st.targets[0].attr == attr and isinstance(st.targets[0].value, ast.Name) and st.targets[0].value.id == "self":
+            v = st.value
+            fresh = isinstance(v, ast.Call) and (ast.unparse(v.func).split(".")[-1][:1].isupper() or ast.unparse(v.func).split(".")[-1].lstrip("_")[:1].isupper()
+                                                  or ast.unparse(v.func) in ("dict", "list", "set")) or \
+                isinstance(v, (ast.Dict, ast.List, ast.Set)) and not (getattr(v, "keys", None) or getattr(v, "elts", None))
+            return bool(fresh) and not reads
+        if reads:
+            return False
+        if isinstance(st, (ast.If, ast.For, ast.While, ast.With, ast.Try)) and any(
+                isinstance(n, ast.Attribute) and n.attr == attr and isinstance(n.value, ast.Name) and n.value.id == "self" for n in ast.walk(st)):
+            return False
+    return False
+
+
 def _none_guarded(idx, sid, attr):
     """Is the writing statement inside `if self.<attr> is None:`?"""
     site, _, ln = sid.rpartition(":")
@@ -1114,6 +1149,8 @@ def carried_state(rep, idx, ef, els):
             attr = loc[2][-1] if loc[2] else ""
             if all(_none_guarded(idx, w, attr) for w in wsites):
                 continue                                                # monotone cache idiom
+            if len(loc[2]) == 1 and _rebuilt_first(f, attr):
+                continue                                                # every elaboration starts by binding a new object there
             found = True
             where = ".".join((loc[1],) + loc[2])
             short = lambda x: x.split("::")[-1]
@@ -1403,6 +1440,17 @@ def classify_recursion(f, call, idx=None):
                             bounded = True
         if bounded:
             return "ok", f"bounded variant: self.{grown} strictly grows before the call and `self.{grown} >= <bound>` raises first"
+        if grown is not None and block is not None and idx is not None and f.cls is not None:
+            # a raise guarded by a predicate of the object that reads the growing field: a bound of another shape
+            for s_ in block[:block.index(stmt)]:
+                if isinstance(s_, ast.If) and any(isinstance(x, ast.Raise) for x in s_.body):
+                    for c_ in ast.walk(s_.test):
+                        if isinstance(c_, ast.Call) and isinstance(c_.func, ast.Attribute) and isinstance(c_.func.value, ast.Name) and \
+                                c_.func.value.id == "self":
+                            h = idx.lookup_method(f.cls, c_.func.attr)
+                            if h is not None and any(isinstance(y, ast.Attribute) and y.attr == grown for y in ast.walk(h.node)):
+                                return "unk", (f"self.{grown} grows before the call and a raise is guarded by `{ast.unparse(c_)[:50]}`, a predicate that reads "
+                                               f"self.{grown}: a bound of another shape than `self.{grown} >= <bound>`, which is not verified")
         return "bad", ("the method calls itself on the same object with nothing that shrinks and no bound on what grows: for inputs that never "
                        "satisfy the exit condition it recurses until RecursionError")
     return "unk", "recursion is neither structural nor of the bounded-variant shape"
@@ -2059,6 +2107,14 @@ def _other_uniqueness_mechanism(idx, f):
             if isinstance(n, ast.Compare) and len(n.ops) == 1 and isinstance(n.left, ast.Subscript) and isinstance(n.left.value, ast.Name) and \
                     isinstance(n.comparators[0], ast.Constant) and n.comparators[0].value in (1, 2):
                 ctests.add(n.left.value.id)
+        for n in ast.walk(g.node):
+            # a set-size or count comparison the exact recogniser did not place (the list is rebound afterwards, the fixed names are
+            # tested separately ...)
+            if isinstance(n, ast.Compare) and any(
+                    isinstance(x, ast.Call) and isinstance(x.func, ast.Name) and x.func.id == "len" and len(x.args) == 1 and
+                    isinstance(x.args[0], ast.Call) and isinstance(x.args[0].func, ast.Name) and x.args[0].func.id in ("set", "frozenset")
+                    for x in ast.walk(n)):
+                return f"a set-size comparison (`{ast.unparse(n)[:70]}`) in {g.qual}"
         if adds & tests:
             return f"a set of names taken so far (`{sorted(adds & tests)[0]}`) in {g.qual}"
         if counts & ctests:
